@@ -313,7 +313,7 @@ for k, v in UNITS.items():
     v["name"] = k
 
 SAFETY_KINDS = ("precondition", "arithmetic-overflow", "division-by-zero", "index-bounds", "termination", "shift-overflow", "panic")
-CONTAINMENT_WORDS = ("fs_allowed", "rel_inside", "harmless_suffix", "under_root", "has_dotdot_seg", "resolves_a_served_link")
+CONTAINMENT_WORDS = ("fs_allowed", "rel_inside", "harmless_suffix", "under_root", "has_dotdot_seg", "resolves_a_served_link", "dir_part(", "link_target(")
 
 
 def owner(unit, f):
